@@ -47,8 +47,10 @@ ASSUMPTIONS = [
     "an argument is in a constructor's domain when an independent predicate says so "
     "with a margin (interior point, spacelike normal, orthogonal block, |det| = 1, "
     "cosine form of signature (d,1)); other calls are counted, not judged",
-    "form residuals are relative to max|M|^2; compositions carry an error estimate "
-    "(cancellation |A||B|/|AB|) that widens the tolerance",
+    "form residuals are relative to max|M|^2; a composition C = A o B is judged with the "
+    "local bound k^2 (r_A + r_B) + 2 n eps k, k = |A||B|/|C| (2-norms), from the residuals "
+    "measured on its operands (an inverse with r_A |A|^2 + n eps |A|^2); beyond 1e-4 it is "
+    "counted, not judged",
     "distance invariance is judged when the isometry's largest entry is <= 300 (images "
     "stay representable); type preservation is judged up to 1e4",
 ]
@@ -87,7 +89,7 @@ REQUIRED = [
 TOL = 1e-7
 EPS = np.finfo(float).eps
 
-# provenance: Isometry object -> {"err": relative entry-error estimate, "origin": str}
+# provenance: Isometry object -> {"res": measured form residual, "origin": str}
 _prov = weakref.WeakKeyDictionary()
 _state = {"compositions": 0, "max_residual": {}}
 
@@ -127,7 +129,7 @@ def is_minkowski(form):
 # ---------------------------------------------------------------------------
 # certification
 
-def certify(run, mon, obj, origin, key, what, case=None, err=None, extra=1.0):
+def certify(run, mon, obj, origin, key, what, case=None, slack=0.0, extra=1.0):
     """judge the form residual of a returned isometry object; on success enter
     it in the provenance table."""
     M = _mats(obj)
@@ -143,17 +145,31 @@ def certify(run, mon, obj, origin, key, what, case=None, err=None, extra=1.0):
     mr = _state["max_residual"]
     if res == res and res > mr.get(origin.split(" of ")[0], -1.0):
         mr[origin.split(" of ")[0]] = res
-    e = 16 * EPS if err is None else err
-    tol = TOL * extra + 100.0 * M.shape[-1] * e
+    tol = TOL * extra + slack
     c = case if case is not None else run.current_case
     if mon.judge(res, tol, key, "%s does not preserve the Minkowski form (M J M^T != J)" % what,
                  {"workload_case": c, "matrix": M} if res > tol else None):
         try:
-            _prov[obj] = {"err": e, "origin": origin}
+            _prov[obj] = {"res": res, "origin": origin}
         except TypeError:
             pass
         return True
     return False
+
+
+def composition_slack(Ma, Mb, Mc, ra, rb):
+    """first-order bound for the relative form residual of C = fl(A B):
+    C J C^T - J = (A J A^T - J) + A (B J B^T - J) A^T + rounding, hence
+    r_C <= k^2 (r_A + r_B) + 2 n eps k with k = |A|_2 |B|_2 / |C|_2 (x10, and a factor
+    n for the max-norm the residuals are measured in)."""
+    na = float(np.max(np.linalg.norm(Ma, ord=2, axis=(-2, -1))))
+    nb = float(np.max(np.linalg.norm(Mb, ord=2, axis=(-2, -1))))
+    nc = float(np.min(np.linalg.norm(Mc, ord=2, axis=(-2, -1))))
+    n1 = Mc.shape[-1]
+    if not (nc > 0) or not np.isfinite(na * nb):
+        return np.inf
+    k = max(1.0, na * nb / nc)
+    return 10.0 * n1 * (k * k * (ra + rb) + 2 * n1 * EPS * k)
 
 
 def frame_margin(rows):
@@ -444,7 +460,8 @@ def setup(run):
             if err > 1e-9:
                 return m_con.skip("%s: cancellation beyond the stressed class" % which)
             certify(run, m_con, res, which, "constructor-form/form-not-preserved/" + which,
-                    "%s of a representation by isometries" % which, err=err)
+                    "%s of a representation by isometries" % which,
+                    slack=100.0 * M.shape[-1] * err)
         return hook
 
     attach.wrap_attr(run, representation.Representation, "__getitem__",
@@ -469,18 +486,14 @@ def setup(run):
             Ma, Mb, Mc = _mats(A), _mats(B), _mats(call.result)
             if Ma is None or Mb is None or Mc is None:
                 return m_prov.skip("non-real data")
-            sa = np.max(np.abs(Ma), axis=(-1, -2))
-            sb = np.max(np.abs(Mb), axis=(-1, -2))
-            sc = np.max(np.abs(Mc), axis=(-1, -2))
-            ratio = float(np.max(sa) * np.max(sb) / max(float(np.min(sc)), 1e-300))
-            err = (pa["err"] + pb["err"] + 8 * EPS) * max(1.0, ratio) * Mc.shape[-1]
-            if err > 1e-9:
+            slack = composition_slack(Ma, Mb, Mc, pa["res"], pb["res"])
+            if slack > 1e-4:
                 return m_prov.skip("cancellation beyond the stressed class")
             _state["compositions"] += 1
             certify(run, m_prov, call.result, "composition",
                     "provenance-form/composition-not-form-preserving",
                     "composition of two certified isometries (%s o %s)"
-                    % (pa["origin"], pb["origin"]), err=err)
+                    % (pa["origin"], pb["origin"]), slack=slack)
             return
         # a certified isometry acting on vectors: kinds are preserved
         if call.exc is not None:
@@ -503,7 +516,7 @@ def setup(run):
         if not np.any(ok):
             return m_type.skip("zero vectors")
         with np.errstate(all="ignore"):
-            noise = (1e-9 + 1e3 * M.shape[-1] * pa["err"]) * \
+            noise = (1e-9 + 1e2 * M.shape[-1] * pa["res"]) * \
                 np.where(ny > 0, (nx * s2 / np.where(ny > 0, ny, 1.0)) ** 2, np.inf)
         bad_t = ok & (qx < -1e-6) & ~(qy < noise)           # timelike became non-timelike
         bad_s = ok & (qx > 1e-6) & ~(qy > -noise)
@@ -529,13 +542,14 @@ def setup(run):
         M = _mats(A)
         if M is None:
             return
-        s = float(np.max(np.abs(M)))
-        err = pa["err"] * max(1.0, s * s) + 8 * EPS * s * s * M.shape[-1]
-        if err > 1e-9:
+        s = float(np.max(np.linalg.norm(M, ord=2, axis=(-2, -1))))
+        n1 = M.shape[-1]
+        slack = 10.0 * n1 * (pa["res"] * s * s + n1 * EPS * s * s)
+        if slack > 1e-4:
             return m_prov.skip("inverse of a very large isometry")
         certify(run, m_prov, call.result, "inverse of " + pa["origin"],
                 "provenance-form/inverse-not-form-preserving",
-                "inverse of a certified isometry (%s)" % pa["origin"], err=err)
+                "inverse of a certified isometry (%s)" % pa["origin"], slack=slack)
 
     attach.wrap_attr(run, projective.Transformation, "inv", hook_inv)
 
@@ -554,9 +568,15 @@ def setup(run):
             return m_prov.fail("provenance-form/matmul-result-not-a-transformation",
                                "A @ B of two certified isometries is not a transformation",
                                run.current_case)
+        Ma, Mb = _mats(A), _mats(B)
+        if Ma is None or Mb is None:
+            return m_prov.skip("non-real data")
+        slack = composition_slack(Ma, Mb, M, pa["res"], pb["res"])
+        if slack > 1e-4:
+            return m_prov.skip("cancellation beyond the stressed class")
         certify(run, m_prov, call.result, "composition",
                 "provenance-form/composition-not-form-preserving",
-                "A @ B of two certified isometries", err=pa["err"] + pb["err"] + 1e-13)
+                "A @ B of two certified isometries", slack=slack)
 
     attach.wrap_attr(run, projective.Transformation, "__matmul__", hook_matmul)
 
@@ -574,7 +594,7 @@ def setup(run):
             return
         certify(run, m_prov, call.result, "unit of " + pa["origin"],
                 "provenance-form/unit-of-composite-not-form-preserving",
-                "a unit taken from a certified composite isometry", err=pa["err"])
+                "a unit taken from a certified composite isometry", slack=2.0 * pa["res"])
 
     attach.wrap_attr(run, projective.ProjectiveObject, "__getitem__", hook_getitem,
                      label="Transformation.__getitem__")
@@ -764,7 +784,7 @@ def check_action(run, T, rng, sig, case=None, reps=2):
     case = case if case is not None else run.current_case
     # the isometry's own accuracy (cancellation in compositions) enters every bound
     pe = _prov.get(T)
-    merr = 100.0 * (n + 1) * (pe["err"] if pe else 16 * EPS)
+    merr = 10.0 * (n + 1) * (pe["res"] if pe else 0.0) + 1e-13
     for r in range(reps):
         cls = POINT_CLASSES[int(rng.integers(0, len(POINT_CLASSES)))]
         kx, ky = point_classes(rng, n, pshape, cls)
